@@ -48,7 +48,7 @@
    which is independent of the labelling - the harness looks the label up in the table it
    recorded from the implementation and which Trace_Constellation validated):
      SMode = "grid"   lattice kinds: every (X, Y)/D with |X| <= D(lx+1), |Y| <= D(ly+1), one row per Y
-                      PSK: every angle index 0 .. M*D-1 at three radii, rows of RowLen
+                      PSK: every angle index 0 .. M*D-1 at five radii (1/2, 1, 3, 1e-6, 1e6), rows of RowLen
      SMode = "edge"   PSK, D large: the two samples one angle step either side of every decision
                       boundary (all boundaries when M*2 <= NRows*RowLen, seeded otherwise)
      SMode = "scaled" lattice kinds: samples x0 + x1*10^ex, y0 + y1*10^ey with exponents from Exps (e.g. -200 .. 100
@@ -107,8 +107,11 @@ ScaleOf(gg, t)   == IF Dev.NoNormalisation \/ gg.m = 1 THEN ROne ELSE UnitScale(
 
 (* ----------------------------------- sample rows -------------------------------------------- *)
 MD == M * D
-OffsetSet == <<0, 1, -1, D \div 2, -(D \div 2), D - 1, -(D - 1), D + 1, -(D + 1), 3 * D + 1, -(5 * D + 3)>>
-GridRows == IF IsLattice(g) THEN 2 * D * (g.ly + 1) + 1 ELSE 3 * ((MD + RowLen - 1) \div RowLen)
+\* (the last two entries lie OUTSIDE the hull of the constellation whatever the point: the nearest point is an edge / corner point)
+OffsetSet == <<0, 1, -1, D \div 2, -(D \div 2), D - 1, -(D - 1), D + 1, -(D + 1), 3 * D + 1, -(5 * D + 3),
+               (2 * g.lx + 3) * D + 1, -((2 * g.lx + 6) * D + 5)>>
+\* PSK grid: five radius numbers (1/2, 1, 3 and the extremes 1e-6, 1e6 - by the lemma the radius does not matter)
+GridRows == IF IsLattice(g) THEN 2 * D * (g.ly + 1) + 1 ELSE 5 * ((MD + RowLen - 1) \div RowLen)
 \* rows are partitioned over NParts TLC processes (this one handles the rows = Part mod NParts)
 RowIds == {r \in (IF SMode = "grid" THEN 1..GridRows ELSE 1..NRows) : r % NParts = Part}
 
